@@ -21,10 +21,50 @@ def _prod(xs):
 
 
 class SymArray(NativeObj):
+    """storage model: `_base` (a flat list) + `_idx` (positions in `_base`, None = owns `_base` in row-major order).
+    Basic indexing (ints / slices), .T / transpose and reshape / ravel of a contiguous array return VIEWS that share
+    `_base` with their origin, as in numpy: a write through the view is a write to the origin.  Everything else
+    (fancy / boolean indexing, arithmetic, copy, astype, flatten) returns an array that owns its storage."""
+
     def __init__(self, flat, shape):
-        self.flat = list(flat)
+        self._base = list(flat)
+        self._idx = None
+        self._uncertain_view = False
         self.shape = tuple(shape)
-        assert len(self.flat) == _prod(self.shape), (len(self.flat), self.shape)
+        assert len(self._base) == _prod(self.shape), (len(self._base), self.shape)
+
+    @property
+    def flat(self):
+        """the elements in row-major order (read-only snapshot when this is a view)"""
+        if self._idx is None:
+            return self._base
+        return [self._base[i] for i in self._idx]
+
+    def _pos(self, o):
+        return o if self._idx is None else self._idx[o]
+
+    def _view(self, offs, shape, uncertain=False):
+        v = SymArray.__new__(SymArray)
+        v._base = self._base
+        v._idx = [self._pos(o) for o in offs]
+        v._uncertain_view = uncertain or self._uncertain_view
+        v.shape = tuple(shape)
+        assert len(v._idx) == _prod(v.shape)
+        return v
+
+    def _contiguous(self):
+        return self._idx is None or all(b == a + 1 for a, b in zip(self._idx, self._idx[1:]))
+
+    def _assign_inplace(self, interp, r):
+        """`a op= b`: numpy writes the result into a's storage (aliases see it)"""
+        if not isinstance(r, SymArray) or r.shape != self.shape:
+            raise Unsupported("in-place array operation changing the shape")
+        if self._uncertain_view:
+            raise Unsupported("write through a reshape of a non-contiguous view (numpy: view or copy)")
+        vals = list(r.flat)
+        for o, x in enumerate(vals):
+            self._base[self._pos(o)] = x
+        return self
 
     # ------------------------------------------------------------ construction
     @staticmethod
@@ -79,11 +119,10 @@ class SymArray(NativeObj):
             axes = tuple(reversed(range(n)))
         new_shape = tuple(self.shape[a] for a in axes)
         strides = self._strides()
-        out = []
+        offs = []
         for idx in itertools.product(*[range(s) for s in new_shape]):
-            off = sum(i * strides[a] for i, a in zip(idx, axes))
-            out.append(self.flat[off])
-        return SymArray(out, new_shape)
+            offs.append(sum(i * strides[a] for i, a in zip(idx, axes)))
+        return self._view(offs, new_shape)
 
     def _strides(self):
         st = []
@@ -100,7 +139,7 @@ class SymArray(NativeObj):
         return SymArray(self.flat, (len(self.flat),))
 
     def ravel(self):
-        return self.flatten()
+        return self._view(range(len(self.flat)), (len(self.flat),), uncertain=not self._contiguous())
 
     def copy(self):
         return SymArray(self.flat, self.shape)
@@ -118,7 +157,9 @@ class SymArray(NativeObj):
             shape[i] = len(self.flat) // rest if rest else 0
         if _prod(shape) != len(self.flat):
             raise ValueError("cannot reshape")
-        return SymArray(self.flat, tuple(shape))
+        # numpy: a view whenever the strides allow it - certain for contiguous data; otherwise view-or-copy, so a later
+        # WRITE through the result is refused (reads are the same either way)
+        return self._view(range(len(self.flat)), tuple(shape), uncertain=not self._contiguous())
 
     def item(self):
         if len(self.flat) != 1:
@@ -173,7 +214,7 @@ class SymArray(NativeObj):
             elif isinstance(s, slice):
                 if any(isinstance(x, SV) for x in (s.start, s.stop, s.step)):
                     raise Unsupported("symbolic slice on array")
-                sels.append(("list", list(range(n))[s]))
+                sels.append(("slice", list(range(n))[s]))
             elif isinstance(s, (list, tuple)):
                 if s and all(isinstance(x, bool) or (isinstance(x, SV) and x.is_bool) for x in s):
                     s = [x if isinstance(x, bool) else interp.truth(x) for x in s]  # forks: data-dependent shape
@@ -198,28 +239,33 @@ class SymArray(NativeObj):
         sels = self._selectors(interp, idx)
         strides = self._strides()
         axes = [(k, v) for k, v in sels]
-        new_shape = tuple(len(v) for k, v in axes if k == "list")
+        new_shape = tuple(len(v) for k, v in axes if k != "int")
         ranges = [[v] if k == "int" else v for k, v in axes]
-        out = [self.flat[sum(i * st for i, st in zip(combo, strides))] for combo in itertools.product(*ranges)]
+        offs = [sum(i * st for i, st in zip(combo, strides)) for combo in itertools.product(*ranges)]
         if not new_shape and all(k == "int" for k, _ in axes):
-            return out[0]
-        return SymArray(out, new_shape)
+            return self._base[self._pos(offs[0])]
+        if all(k in ("int", "slice") for k, _ in axes):
+            return self._view(offs, new_shape)  # basic indexing: a view
+        flat = self.flat
+        return SymArray([flat[o] for o in offs], new_shape)
 
     def _setitem(self, interp, idx, val):
         sels = self._selectors(interp, idx)
         strides = self._strides()
-        new_shape = tuple(len(v) for k, v in sels if k == "list")
+        new_shape = tuple(len(v) for k, v in sels if k != "int")
         ranges = [[v] if k == "int" else v for k, v in sels]
         offs = [sum(i * st for i, st in zip(combo, strides)) for combo in itertools.product(*ranges)]
+        if self._uncertain_view:
+            raise Unsupported("write through a reshape of a non-contiguous view (numpy: view or copy)")
         if isinstance(val, (list, tuple)):
             val = SymArray.from_nested(interp, val)
         if isinstance(val, SymArray):
             v = val._broadcast_to(interp, new_shape)
-            for o, x in zip(offs, v.flat):
-                self.flat[o] = x
+            for o, x in zip(offs, list(v.flat)):  # snapshot first: the source may alias the destination
+                self._base[self._pos(o)] = x
         else:
             for o in offs:
-                self.flat[o] = val
+                self._base[self._pos(o)] = val
 
     def _broadcast_to(self, interp, shape):
         if self.shape == tuple(shape):
@@ -408,7 +454,9 @@ class SymArray(NativeObj):
 
     def _merge(self, interp, cz, other):
         if isinstance(other, SymArray) and other.shape == self.shape:
-            return SymArray([interp.merge_values(cz, a, b) for a, b in zip(self.flat, other.flat)], self.shape)
+            m = SymArray([interp.merge_values(cz, a, b) for a, b in zip(self.flat, other.flat)], self.shape)
+            m._uncertain_view = True  # stands for one of two existing arrays: a write through it would have to reach that one
+            return m
         return None
 
     def __repr__(self):
@@ -465,6 +513,32 @@ def numpy_namespace(I):
 
     def nonzero(interp, x):
         return arr(interp, x).nonzero()
+
+    def _arg_extreme(interp, x, op, axis=None):
+        """np.argmax / np.argmin over the flattened array: index of the FIRST extreme element (forks on symbolic data:
+        the result is used as an index)"""
+        if axis is not None:
+            raise Unsupported("np.argmax/argmin with axis")
+        vals = list(arr(interp, x).flat)
+        if not vals:
+            interp.raise_py("ValueError", "attempt to get argmax of an empty sequence")
+        vals = [ops.simp(ops.zint(v)) if isinstance(v, SV) and v.is_bool else (int(v) if isinstance(v, bool) else v) for v in vals]
+        best, bi = vals[0], 0
+        for i in range(1, len(vals)):
+            if interp.truth(interp.compare(op, vals[i], best)):
+                best, bi = vals[i], i
+        return bi
+
+    def argmax(interp, x, axis=None):
+        return _arg_extreme(interp, x, "Gt", axis)
+
+    def argmin(interp, x, axis=None):
+        return _arg_extreme(interp, x, "Lt", axis)
+
+    def _ro(a):
+        """numpy returns a VIEW here, this model a copy: reads agree, a write through the result is refused"""
+        a._uncertain_view = True
+        return a
 
     def count_nonzero(interp, x):
         a = arr(interp, x)
@@ -560,14 +634,14 @@ def numpy_namespace(I):
         return NativeFn(f, "np." + name)
 
     ns = dict(
-        array=NativeFn(array, "np.array"), asarray=NativeFn(array, "np.asarray"), zeros=NativeFn(zeros, "np.zeros"),
+        array=NativeFn(array, "np.array"), asarray=NativeFn(arr, "np.asarray"), argmax=NativeFn(argmax, "np.argmax"), argmin=NativeFn(argmin, "np.argmin"), zeros=NativeFn(zeros, "np.zeros"),
         ones=NativeFn(ones, "np.ones"), eye=NativeFn(eye, "np.eye"), any=NativeFn(np_any, "np.any"),
         all=NativeFn(np_all, "np.all"), sum=NativeFn(np_sum, "np.sum"), max=NativeFn(np_max, "np.max"),
         min=NativeFn(np_min, "np.min"), prod=NativeFn(np_prod, "np.prod"), nonzero=NativeFn(nonzero, "np.nonzero"),
-        count_nonzero=NativeFn(count_nonzero, "np.count_nonzero"), flip=NativeFn(flip, "np.flip"),
+        count_nonzero=NativeFn(count_nonzero, "np.count_nonzero"), flip=NativeFn(lambda i, *a, **k: _ro(flip(i, *a, **k)), "np.flip"),
         roll=NativeFn(roll, "np.roll"), hstack=NativeFn(hstack, "np.hstack"), vstack=NativeFn(vstack, "np.vstack"),
-        concatenate=NativeFn(concatenate, "np.concatenate"), expand_dims=NativeFn(expand_dims, "np.expand_dims"),
-        squeeze=NativeFn(squeeze, "np.squeeze"), array_equal=NativeFn(array_equal, "np.array_equal"),
+        concatenate=NativeFn(concatenate, "np.concatenate"), expand_dims=NativeFn(lambda i, *a, **k: _ro(expand_dims(i, *a, **k)), "np.expand_dims"),
+        squeeze=NativeFn(lambda i, *a, **k: _ro(squeeze(i, *a, **k)), "np.squeeze"), array_equal=NativeFn(array_equal, "np.array_equal"),
         int_=Opaque("np.int_"), int64=Opaque("np.int64"), int32=Opaque("np.int32"), int8=Opaque("np.int8"),
         ndarray=SymArray, unique=unsupported("unique"), frombuffer=unsupported("frombuffer"),
         argsort=unsupported("argsort"), allclose=unsupported("allclose"),
